@@ -5,7 +5,7 @@ CONSTANTS
   Kinds <- K2
   BatchSize = 3
   MaxBlocks = 4
-  MaxXfers = 8
+  MaxXfers = 7
   MaxPerBlock = 3
   Replica <- R1
   DiskBackend <- R1
